@@ -70,7 +70,7 @@ def lticksCmd (f : List String) : Option String :=
     let trims (x : List Rat) : List (List Rat) := [x, x.drop 1, x.dropLast, (x.drop 1).dropLast]
     let same := (trims l).any (fun a => (trims mt).any (fun b => close a b))
     let prop := ticksOKB ftol d0 d1 m l
-    let form := stepFormB step
+    let form := decide (step ≤ 0) || stepFormB step   -- a degenerate domain has no ticks and no step
     let txt := textsOKB step l texts
     let mtexts := mt.map (fun x => formatFixed x (tickDecimals step))
     let mOK := ticksOKB 0 d0 d1 m mt && textsOKB step mt mtexts && form
@@ -97,7 +97,7 @@ def lniceCmd (f : List String) : Option String :=
     -- pushing an end one further step out.  Whether the observed result is acceptable is decided by `niceOKB`, not by this relation.
     let nudges : List Rat := [0, 1 / 1000000000000, -1 / 1000000000000]
     let olo := ratMin n0 n1; let ohi := ratMax n0 n1
-    let same := nudges.any (fun e0 => nudges.any (fun e1 =>
+    let same := (d0 == d1 && n0 == d0 && n1 == d1) || nudges.any (fun e0 => nudges.any (fun e1 =>
       let span := ratAbs (d1 - d0)
       let rr := Scale.nice (d0 + e0 * (ratAbs d0 + span)) (d1 + e1 * (ratAbs d1 + span)) m
       let st := (tickRange rr.1 rr.2 m).2.2
